@@ -62,7 +62,7 @@ ENV = {
     "dbc": dict(same_number_pairs=True, ecus=True, ecu_comments=True, frame_comments=True, signal_comments=True, multiline=True, senders="many", receivers=True,
                 motorola=True, signed=True, floats=True, mux=["none", "none", "simple", "extended"], values=True, neg_values=True,
                 attributes=["net", "ecu", "frame", "signal"], attr_types=["INT", "HEX", "FLOAT", "STRING", "ENUM"], unit_max=32, nonascii=True,
-                limits=True, ext=True, unique_signals=False, static_with_mux=True, min_len=1, mux_named=True, groups=True, value_tables=True, empty_string_attr=True, long_names=True),
+                limits=True, ext=True, unique_signals=False, static_with_mux=True, min_len=1, mux_named=True, groups=True, value_tables=True, empty_string_attr=True, long_names=True, cp1252_words=True),
     "dbf": dict(ecus=True, ecu_comments=True, frame_comments=True, signal_comments=True, multiline=False, senders="one", receivers=True,
                 motorola=True, signed=True, floats=True, mux=["none", "none", "simple"], values=True, neg_values=False,
                 attributes=["net", "ecu", "frame", "signal"], attr_types=["INT", "HEX"], unit_max=16, nonascii=True,
@@ -136,7 +136,10 @@ def rand_decimal(rng, digits=4, neg=True, nonzero=False):
 
 def comment_text(rng, env, multiline):
     def line():
-        return " ".join(rng.choice(WORDS_PLAIN if env.get("no_comma") else WORDS) for _ in range(rng.randrange(1, 7)))
+        pool = WORDS_PLAIN if env.get("no_comma") else WORDS
+        if env.get("cp1252_words"):
+            pool = pool * 4 + ["20€", "a–b", "Größe", "Maß"]     # € and – lie outside iso-8859-1: only charsets that have them can carry the file
+        return " ".join(rng.choice(pool) for _ in range(rng.randrange(1, 7)))
     n = rng.choice([1, 1, 2, 3]) if multiline else 1
     words_ok = lambda t: t if env.get("nonascii", True) else t.encode("ascii", "ignore").decode()
     return words_ok("\n".join(line() for _ in range(n)))
